@@ -227,8 +227,11 @@ inline std::string prog_suspend_point(vf::rng &r, std::string &desc, long &frame
     return err;
 }
 
-inline std::string prog_generator(vf::rng &r, std::string &desc, long &frames, long &deq) {
+inline std::string prog_generator(vf::rng &r, std::string &desc, long &frames, long &deq, bool direct_styles_only = false) {
     int n = (int)r.below(20), style = (int)r.below(4);
+    // style 2 (call operator returning a future) is routed through the thread's ready queue by design; the other styles resume the
+    // generator directly
+    while (direct_styles_only && style == 2) style = (int)r.below(4);
     desc = "sync generator items=" + std::to_string(n) + " style=" + std::to_string(style);
     std::string err;
     {
@@ -261,6 +264,54 @@ inline std::string prog_generator(vf::rng &r, std::string &desc, long &frames, l
     return err;
 }
 
+// Programs that involve no asynchronous coroutine at all (a synchronous generator stepped by ordinary code; future/promise with
+// callback awaiters and polling; try_lock/unlock) do not need the thread's ready queue either. Run on a BRAND-NEW thread, where the
+// thread-local ready queue has never been touched, such a program must not allocate anything but the generator frame itself - not
+// even the one-time ready-queue blocks that are tolerated elsewhere. (The generator's call operator, which returns a future, goes
+// through the ready queue by design and is therefore stepped on warmed threads only.)
+inline std::string prog_cold_thread(vf::rng &r, std::string &desc, long &frames, long &deq) {
+    int what = (int)r.below(3);
+    std::string err, d2; long fr = 0, dq = 0;
+    vf::rng r2(r.next());
+    d2.reserve(256); err.reserve(1024);
+    std::thread t([&] {
+        if (what == 0) err = prog_generator(r2, d2, fr, dq, true);
+        else if (what == 1) { // future resolved and observed without any coroutine
+            d2 = "future<int> with callback awaiters and polling only";
+            c20_ctx C; cb_aw cbs[3];
+            al::region reg;
+            {
+                cocls::future<int> f; auto p = f.get_promise();
+                int ncb = 1 + (int)r2.below(3);
+                for (int i = 0; i < ncb; i++) { cbs[i].C = &C; if (!f.subscribe(&cbs[i])) cbs[i].resume(); }
+                bool pending = !f.ready();
+                cocls::promise<int> q = std::move(p);
+                int how = (int)r2.below(3);
+                if (how == 0) q(7); else if (how == 1) q(cocls::drop); else { cocls::promise<int> gone = std::move(q); }
+                if (!pending || !f.ready() || C.released != ncb) err = "harness: callback waiters not released";
+                if (err.empty() && how == 0 && f.value() != 7) err = "harness: wrong value";
+            }
+            fr = reg.nframes(); dq = reg.ndeque();
+            if (err.empty() && reg.nother()) err = std::string("allocation by the primitives: ") + al::other_stack;
+        } else { // mutex used by ordinary code only
+            d2 = "mutex try_lock / blocking lock / release by ordinary code";
+            al::region reg;
+            {
+                cocls::mutex mx;
+                { auto own = mx.try_lock(); if (!own) err = "harness: try_lock on a free mutex failed"; auto own2 = mx.try_lock(); if (own2) err = "harness: second try_lock succeeded"; }
+                { auto own = mx.lock().wait(); own.release(); }
+                { auto own = mx.try_lock(); if (!own) err = "harness: mutex not free after release"; }
+            }
+            fr = reg.nframes(); dq = reg.ndeque();
+            if (err.empty() && reg.nother()) err = std::string("allocation by the primitives: ") + al::other_stack;
+        }
+        if (err.empty() && dq) err = "ready-queue blocks allocated on a fresh thread by a program that involves no asynchronous coroutine (" + d2 + ")";
+    });
+    t.join();
+    desc = "[fresh thread] " + d2; frames = fr; deq = dq;
+    return err;
+}
+
 inline void alloc_free_programs(const vf::opts &o, vf::report &R, uint64_t programs) {
     vf::rng master(vf::mix(o.seed, 0x20));
     helper_thread Hs[4];
@@ -280,7 +331,8 @@ inline void alloc_free_programs(const vf::opts &o, vf::report &R, uint64_t progr
         std::string desc, err; long fr = 0, dq = 0;
         bool nonheap = r.chance(1, 3);
         al::other_recorded.store(0);
-        switch (r.below(5)) {
+        switch (r.below(pn % 8 == 7 ? 6 : 5)) {
+        case 5: err = prog_cold_thread(r, desc, fr, dq); break;
         case 0: err = prog_future<int>(r, nonheap, stor, Hs, desc, fr, dq); break;
         case 1: err = prog_future<pod8>(r, nonheap, stor, Hs, desc, fr, dq); break;
         case 2: err = prog_mutex(r, nonheap, stor, Hs, desc, fr, dq); break;
